@@ -191,9 +191,43 @@ def run_polytope_obs(c):
     if kind not in ("segment", "segmentcoll", "polygon", "polygoncoll", "triangle", "rectangle"):
         raise Skip("not a segment/polygon")
     x, _ = Z.build(kind, d, c["v"])
-    t = Transformation(mats(c)[0])
-    ck = Checker()
     tag = f"{kind}{d}"
+    if kind == "segment" and c["k"] % 3 != 2:
+        # structured positions: segments on lines parallel to a coordinate axis / through the origin, in either vertex order (lines with a
+        # vanishing coefficient and every sign pattern of the others)
+        from geometer import Segment
+
+        v = [int(q) for q in c["v"]]
+        p0 = np.array([float(q) for q in v[:d]])
+        if c["k"] % 3 == 0:
+            e = np.zeros(d)
+            e[abs(v[d]) % d] = float(v[d + 1] or 1)
+            p0, p1 = p0, p0 + e
+            tag += ":axis-parallel"
+        else:
+            if not np.any(p0):
+                raise Skip("zero direction")
+            p0, p1 = p0 * float(v[d] or 1), p0 * float((v[d] or 1) + (v[d + 1] or 2))
+            tag += ":through-the-origin"
+        if c["k"] < 0:
+            p0, p1 = p1, p0
+        x = Segment(Point(np.append(p0, 1.0)), Point(np.append(p1, 1.0)))
+    t = Transformation(mats(c)[0])
+    if ":" in tag and abs(c["k"]) % 2 == 0:
+        # ... moved by a map that keeps the structure: identity, translation, scaling, quarter turn, reflection in a coordinate axis
+        simple = np.eye(d + 1)
+        which = abs(int(c["m"][0])) % 5
+        if which == 1:
+            simple[:d, -1] = [float(q) for q in c["m"][1:1 + d]]
+        elif which == 2:
+            simple[:d, :d] = np.diag([float((abs(int(q)) % 3) + 1) * (1 if int(q) % 2 else -1) for q in c["m"][1:1 + d]])
+        elif which == 3:
+            simple[0, 0], simple[0, 1], simple[1, 0], simple[1, 1] = 0.0, -1.0, 1.0, 0.0
+        elif which == 4:
+            simple[0, 0] = -1.0
+        t = Transformation(simple)
+        tag += ":structure-preserving-map"
+    ck = Checker()
     y, f = call(f"apply:{tag}", lambda: t * x)
     if f:
         return [f]
@@ -207,6 +241,7 @@ def run_polytope_obs(c):
             ck.add(f)
         else:
             ck.check(C.peq_all(y._line.array, lt.array, y._line.array.ndim - (1 if kind == "segmentcoll" else 0) if False else (1 if d == 2 else 2), 1e-7), f"cached-line:{tag}", "")
+        ck.check(bool(np.all(np.any(np.abs(np.asarray(y._line.array)) > 1e-12, axis=tuple(range(-1, -(2 if d == 2 else 3), -1))))), f"cached-line-is-not-the-zero-tensor:{tag}", "")
         # the cached line must contain the transformed vertices
         for vtx in y.vertices:
             cc, f = call(f"contains:{tag}", y._line.contains, vtx)
@@ -391,6 +426,6 @@ LAWS = [
         {"quick": 300, "thorough": 5000}, "collections of cuboids in one Polyhedron tensor under transformation collections: element-wise action and inverse", shard=150,
         mandatory=("t-collection", "n6")),
     Law("polytope_observation", lambda tier: case(tier).filter(lambda c: c["kind"] in ("segment", "segmentcoll", "polygon", "polygoncoll", "triangle", "rectangle")),
-        run_polytope_obs, nontrivial, labels, {"quick": 500, "thorough": 10000},
+        run_polytope_obs, nontrivial, labels, {"quick": 2400, "thorough": 20000},
         "cached _line/_plane of transformed polytopes and membership of transformed interior points", shard=400),
 ]
